@@ -12,8 +12,9 @@ Three checks per generated module set (base modules + deviating modules):
        OCaml `c08spec`) is applied to the target nodes of the UNDEVIATED dump, deviation by deviation; it must
        predict the verdict (reported / clean) of the deviated run and every named property of every target in the
        deviated dump (or its absence).  Excluded exactly as in the theorems: delete of units/type (outside the
-       claim), delete of a leaf-list default (the library refuses with an error: accepted as "reported"),
-       and KNOWN_FINDINGS sig=delete.absent-bound (flagged by the Coq guard known_delete_absent_bound).
+       claim) and delete of a leaf-list default (the library refuses with an error: accepted as "reported").
+       Deleting a min-/max-elements statement that is absent (D45, repaired) must be REPORTED by reference, model
+       and implementation alike: the generator keeps producing it.
 """
 import itertools
 import json
@@ -23,7 +24,6 @@ import lib
 from props import schema_gen as sg
 
 MAXU64 = sg.MAXU64
-SIG_ABSENT = "delete.absent-bound"
 
 
 # ------------------------------------------------------------------ base schemas with known targets
@@ -813,7 +813,7 @@ def written_lookup(c):
 
 
 def check_cases(res, cases, report=3):
-    stats = dict(go_ok=0, go_err=0, base_err=0, frame_nodes=0, spec_targets=0, spec_evals=0, refusals=0, known=0,
+    stats = dict(go_ok=0, go_err=0, base_err=0, frame_nodes=0, spec_targets=0, spec_evals=0, refusals=0,
                  out_of_scope=0, spec_err=0, spec_ok=0, skipped=0)
     # (i) model vs implementation, deviated run
     go_lines = [go_case_c(c) for c in cases]
@@ -907,10 +907,6 @@ def check_cases(res, cases, report=3):
         got = c["_st"]
         stats["spec_err" if want == "err" else "spec_ok"] += 1
         if want != got:
-            if want == "err" and o.flags["k"]:
-                stats["known"] += 1
-                res.known(SIG_ABSENT, json.dumps(strip(c))[:400])
-                continue
             if want == "ok" and o.flags["r"]:
                 stats["refusals"] += 1
                 continue
@@ -935,10 +931,6 @@ def check_cases(res, cases, report=3):
                 viol("reference: target %s/%s is gone although no not-supported applies" % (mn, "/".join(steps)), c)
                 continue
             if node_expect(n) != s["expect"]:
-                if o.flags["k"]:
-                    stats["known"] += 1
-                    res.known(SIG_ABSENT, json.dumps(strip(c))[:400])
-                    continue
                 viol("reference and implementation disagree at target %s/%s: reference %s implementation %s" %
                      (mn, "/".join(steps), s["expect"], node_expect(n)), c)
                 continue
